@@ -191,6 +191,58 @@ def oracle_model(getter, rng, tier_quick, notes):
         s3 = tm.conditional_sample(200, cdim, hs, random_state=7)
         if not np.array_equal(s2, s3):
             return ({"clause": "seed", "getter": getter}, "conditional_sample not reproducible for a fixed random_state")
+    # IFORM contour of the transformed model: reproduced exactly when random_state is set, and each coordinate is the
+    # Monte-Carlo quantile of the exact marginal / conditional law of the push-forward (DKW bound of the sample size used)
+    if getter.startswith("fitted:") or not tier_quick:
+        from virocon import IFORMContour
+        import scipy.stats as sts
+        npts = 4 if tier_quick else 12
+        al = 0.02
+        with warnings.catch_warnings():
+            warnings.simplefilter("ignore")
+            c1 = IFORMContour(tm, al, n_points=npts)
+            c2 = IFORMContour(tm, al, n_points=npts)
+        k1, k2 = np.asarray(c1.coordinates), np.asarray(c2.coordinates)
+        if not np.array_equal(k1, k2):
+            bad = [j for j in range(2) if not np.array_equal(k1[:, j], k2[:, j])]
+            return ({"clause": "seed", "getter": getter, "what": "IFORMContour"},
+                    "IFORMContour(model with random_state=%r, %r, n_points=%d) is not reproduced: coordinate column(s) %r differ between two constructions, e.g. %r vs %r"
+                    % (tm.random_state, al, npts, bad, k1[0].tolist(), k2[0].tolist()))
+        pp = sts.norm.cdf(np.asarray(c1.sphere_points))
+        d0, d1 = base.distributions[0], base.distributions[1]
+        for i in range(len(k1)):
+            hs_i, tz_i = float(k1[i, 0]), float(k1[i, 1])
+            ps0 = min(pp[i, 0], 1 - pp[i, 0])
+            n_0 = max(int((1 / min(np.min(pp[:, 0]), 1 - np.max(pp[:, 0]))) * 100 * tm.precision_factor), 100000)
+            f0 = float(np.atleast_1d(d0.cdf(np.array([hs_i])))[0])
+            e0 = math.sqrt(math.log(2 / 1e-12) / (2 * n_0))
+            if abs(f0 - pp[i, 0]) > e0 + 1e-9:
+                return ({"clause": "iform-marginal", "getter": getter},
+                        "IFORM point %d: first coordinate %r has marginal probability %r, wanted %r (DKW bound %.4f for %d draws)" % (i, hs_i, f0, float(pp[i, 0]), e0, n_0))
+            ps1 = min(pp[i, 1], 1 - pp[i, 1])
+            if not getter.startswith("fitted:"):
+                # the unfitted default parameters give, at very small hs, a conditional density that is unbounded at tz -> 0
+                # (shape parameter beta = hs): rejection sampling cannot represent it; such points are outside the property's models
+                gg = np.array([1e-6, 1e-3, 1e-2, 0.1, 0.3, 1, 2, 4, 8, 16, 32])
+                dd = np.nan_to_num(tm.pdf(np.column_stack([np.full_like(gg, hs_i), gg])))
+                if dd[:2].max() >= 0.5 * dd.max():
+                    notes["iform_unbounded_conditional_skipped"] = notes.get("iform_unbounded_conditional_skipped", 0) + 1
+                    continue
+            n_1 = int(min(max((1 / ps1) * 100 * 1.0, 100000), 10000000))   # conditional_icdf is called with its default precision_factor
+            # the sampler's documented support cap is 100 (jointmodels.py: highest_possible_x_max); conditionals of the
+            # unfitted default parameters with visible mass beyond it are outside the property's models
+            s_cap = float(np.asarray(t(np.array([[hs_i, 100.0]])))[0, 1])
+            beyond = float(np.atleast_1d(d1.cdf(np.array([s_cap]), given=np.array([hs_i])))[0])
+            if beyond > 1e-4:
+                notes["iform_mass_beyond_cap_skipped"] = notes.get("iform_mass_beyond_cap_skipped", 0) + 1
+                continue
+            s_i = float(np.asarray(t(np.array([[hs_i, tz_i]])))[0, 1])
+            f1 = 1.0 - float(np.atleast_1d(d1.cdf(np.array([s_i]), given=np.array([hs_i])))[0])
+            e1 = math.sqrt(math.log(2 / 1e-12) / (2 * n_1))
+            notes.setdefault("iform_prob_dev", []).append([round(abs(f0 - float(pp[i, 0])), 5), round(abs(f1 - float(pp[i, 1])), 5)])
+            if abs(f1 - pp[i, 1]) > e1 + beyond + 1e-6:
+                return ({"clause": "iform-conditional", "getter": getter},
+                        "IFORM point %d: tz=%r given hs=%r has conditional probability %r, wanted %r (DKW bound %.4f for %d draws)" % (i, tz_i, hs_i, f1, float(pp[i, 1]), e1, n_1))
     # conditional_cdf: element i is the conditional cdf at x[i] given given[i], for givens in ANY order, with repeats
     # (the implementation uses 100000 draws per element: DKW bound at error probability 1e-12)
     eps_c = math.sqrt(math.log(2 / 1e-12) / (2 * 100000))
